@@ -9,6 +9,7 @@ STRT = r'(const )?(std::basic_string<char.*>|std::string|std::__cxx11::basic_str
 IDMAP = r'(const )?std::map<unsigned int, std::(__cxx11::)?basic_string<char.*>.*>'
 IDMAP_RIT = r'std::reverse_iterator<std::_Rb_tree_iterator<std::pair<const unsigned int, .*>>>|std::map<unsigned int, .*>::reverse_iterator'
 IDPAIR = r'(const )?std::pair<const unsigned int, std::(__cxx11::)?basic_string<char.*>>'
+TVRIT = r'std::reverse_iterator<' + TVIT + r'>|std::vector<tree>::(const_)?reverse_iterator'
 BX_CFG = {
     'names': {'(anonymous namespace)::build_exec': 'build_exec'},
     'bodies_prelude': '',
@@ -20,7 +21,7 @@ BX_CFG = {
               r'std::initializer_list<layout>': 'mlayvec',
               r'(const )?std::unique_ptr<pred(, std::default_delete<pred>)?>': 'int',
               r'op_merge|op_tine|op_bind': 'mop', STRT: 'matom', r'(const )?binding': 'mbinding', r'(const )?upref': 'mupref',
-              IDMAP: 'midmap', IDMAP_RIT: 'const midname *', IDPAIR: 'midname', TVIT + r'|std::vector<tree>::(const_)?iterator': 'const mtree *'},
+              IDMAP: 'midmap', IDMAP_RIT: 'const midname *', IDPAIR: 'midname', TVRIT: 'const mtree *', TVIT + r'|std::vector<tree>::(const_)?iterator': 'const mtree *'},
     'types_are_records': {r'(const )?layout': True, r'uprefs': True, r'(const )?tree': True, r'bindings': True,
                           r'(const )?std::vector<tree(, std::allocator<tree>)?>': True, r'builtin': True,
                           r'(const )?std::vector<layout(, std::allocator<layout>)?>': True, r'std::initializer_list<layout>': True,
@@ -60,6 +61,12 @@ BX_CFG = {
                r'std::make_shared\|(std::)?shared_ptr<(_NonArray<)?op_lex_closure>.*': 'mk_lex_closure',
                r'uprefs::ctor\|void \(bindings &, uprefs &\)': 'muprefs_nested', r'uprefs::refd_ids': 'mu_refd_ids',
                r'op_apply::reserve_rendezvous': 'model_reserve_rdv',
+               r'std::make_shared\|(std::)?shared_ptr<(_NonArray<)?stringer_origin>.*': 'mk_sorigin',
+               r'std::make_shared\|(std::)?shared_ptr<(_NonArray<)?stringer_lit>.*': 'mk_slit',
+               r'std::make_shared\|(std::)?shared_ptr<(_NonArray<)?stringer_op>.*': 'mk_sop',
+               r'std::make_shared\|(std::)?shared_ptr<(_NonArray<)?op_format>.*': 'mk_format',
+               TV + r'::rbegin': 'MTV_RBEGIN', TV + r'::rend': 'MTV_REND',
+               r'std::reverse_iterator<.*>::operator\*': {'c': 'RIT_ARROW', 'by_value': True},
                IDMAP + r'::rbegin': 'IDMAP_RBEGIN', IDMAP + r'::rend': 'IDMAP_REND', IDMAP + r'::size': 'IDMAP_SIZE',
                r'std::operator!=\|.*reverse_iterator.*': {'c': 'IT_NE', 'by_value': True}, r'std::reverse_iterator<.*>::operator\+\+': 'RIT_PREINC',
                r'std::reverse_iterator<.*>::operator->': {'c': 'RIT_ARROW', 'by_value': True}},
@@ -75,8 +82,8 @@ def cfg(cases):
 
 import os, sys
 HERE = os.path.dirname(os.path.abspath(__file__))
-ALL_CASES = ['IFELSE', 'ALT', 'SCOPE', 'CAPTURE', 'CLOSE_STAR', 'CLOSE_PLUS', 'OR', 'CAT', 'READ', 'BIND', 'BLOCK']
-LOOPING = {'alt', 'or', 'cat', 'block'}
+ALL_CASES = ['IFELSE', 'ALT', 'SCOPE', 'CAPTURE', 'CLOSE_STAR', 'CLOSE_PLUS', 'OR', 'CAT', 'READ', 'BIND', 'BLOCK', 'FORMAT']
+LOOPING = {'alt', 'or', 'cat', 'block', 'format'}
 
 
 def prepare(vlib, out):
@@ -93,6 +100,8 @@ def jobs(vlib, Job, out, names, control=False):
     for nm in names:
         if nm == 'block':
             expanded += [('block', 'block_upvalues%d' % k, ['BX_REFD=%d' % k]) for k in range(4)]
+        elif nm == 'format':
+            expanded += [('format', 'format_n%d_kinds%d' % (n, m), ['BX_FMT_N=%d' % n, 'BX_FMT_MASK=%d' % m]) for n in range(4) for m in range(1 << n)]
         elif nm == 'read':
             expanded.append(('read', 'read', ['BX_ATOM=1']))
         else:
